@@ -216,6 +216,7 @@ def judge(ctx, case):
 
 
 def canaries(ctx):
+    ctx.repo_tests_under_monitors(('C04',))       # second, independent workload for the same oracle
     d = _CODED[:1500]
     good = ref.block(d)
     ctx.canary('flipped payload byte', ref.classify_blocked(good[:100] + b'\xff' + good[101:], d) is not None)
